@@ -61,12 +61,12 @@ ASSUMPTIONS = [
 # COMPLETED; it swallows the next matching intent and can re-run its `set`s later.  While the finding is open the
 # generated histories stop right after such a step (counted as excluded); set to False once it is fixed.
 MAX_EVENTS = 160  # every evaluation replays the whole history: cost is quadratic, so long histories are cut
-F13_OPEN = True
+F13_OPEN = False
 # Finding C14-F14 (open, reported): flow -> `do s1` -> `do s0` where s1 reaches the inner call while it is being
 # entered and s0 starts by waiting for the user: _call_subflow records s1's element after `do s0` as the next step
 # although s1 is interrupted by s0 (a bot/execute there is emitted at once; IndexError if `do s0` is s1's last element).
 # While open, histories stop before such a step is asserted (conservatively: whatever follows the inner `do`).
-F14_OPEN = True
+F14_OPEN = False
 
 
 def budget(tier):
